@@ -102,9 +102,25 @@ enum Field {
     ScriptPubKey,
     ScriptSig,
     Witness,
+    /// the scriptSig of a coinbase input (one block per string; the coinbase claims more than the subsidy, so that what
+    /// counts as a coinbase shows in the fee total)
+    CoinbaseSig,
 }
 
 fn host_chain(c: &'static Coin, field: Field, strings: &[Vec<u8>]) -> (ChainBuilder, BTreeSet<String>) {
+    if field == Field::CoinbaseSig {
+        let mut cb = ChainBuilder::with_genesis(c);
+        let mut injected = BTreeSet::new();
+        for (i, s) in strings.iter().enumerate() {
+            let h = cb.next_height();
+            let cbtx = Tx { version: 1, segwit: false, inputs: vec![TxIn::coinbase(s.clone())], outputs: vec![pay(63, model::base_reward(h) + 1234 + i as u64), pay(64, 5)], locktime: i as u32, wide: 0 };
+            injected.insert(hash_hex(&cbtx.txid()));
+            let plain = Tx { version: 1, segwit: false, inputs: vec![TxIn::spend([0xd1; 32], i as u32)], outputs: vec![pay(65, 7)], locktime: 0, wide: 0 };
+            cb.push_raw(vec![cbtx, plain]);
+        }
+        cb.push(vec![]);
+        return (cb, injected);
+    }
     let mut cb = ChainBuilder::with_genesis(c);
     // ordinary neighbours before and after
     let mk_plain = |h: u64, k: u8| Tx { version: 1, segwit: false, inputs: vec![TxIn::spend([0xe0 + k; 32], 0)], outputs: vec![pay(40 + k, 7 * COIN_VALUE), TxOut { value: 0, script: script::op_return(format!("host{}-{}", h, k).as_bytes()) }], locktime: 0, wide: 0 };
@@ -122,6 +138,7 @@ fn host_chain(c: &'static Coin, field: Field, strings: &[Vec<u8>]) -> (ChainBuil
                 inp.script_sig = s.clone();
                 tx.outputs = vec![pay(61, 2)];
             }
+            Field::CoinbaseSig => unreachable!(),
             Field::Witness => {
                 tx.segwit = true;
                 inp.witness = vec![vec![1, 2, 3], s.clone(), vec![]];
@@ -244,8 +261,12 @@ pub fn run() -> Report {
     let batch = 50;
     let mut cases = Vec::new();
     for c in COINS.iter() {
-        for field in [Field::ScriptPubKey, Field::ScriptSig, Field::Witness] {
+        for field in [Field::ScriptPubKey, Field::ScriptSig, Field::Witness, Field::CoinbaseSig] {
             for cbn in ["csvdump", "unspentcsvdump", "balances", "simplestats", "opreturn"] {
+                // coinbase scriptSigs: the callbacks that look at coinbases at all
+                if field == Field::CoinbaseSig && !matches!(cbn, "csvdump" | "simplestats") {
+                    continue;
+                }
                 // scriptSig / witness bytes are never interpreted: the three map/stat callbacks see them on two coins only
                 if field != Field::ScriptPubKey && cbn != "csvdump" && !matches!(c.name, "bitcoin" | "dogecoin") {
                     continue;
@@ -256,7 +277,7 @@ pub fn run() -> Report {
             }
         }
     }
-    rep.rule = format!("host chain (3 blocks with ordinary neighbours) receiving each of {} adversarial strings (class representatives, truncation classes, PUSHDATA4 with huge lengths, 10000 pushes, 100 KB of one opcode, invalid UTF-8 after OP_RETURN, all 256 single opcodes) in scriptPubKey / scriptSig / a witness item, in batches of {} per world bisected on failure, x 8 coins x 5 callbacks; exit 0, no panic text, output equal to the model with the cells derived from an injected scriptPubKey masked; non-trivial = distinct (coin, field, callback, batch)", list.len(), batch);
+    rep.rule = format!("host chain (3 blocks with ordinary neighbours) receiving each of {} adversarial strings (class representatives, truncation classes, PUSHDATA4 with huge lengths, 10000 pushes, 100 KB of one opcode, invalid UTF-8 after OP_RETURN, all 256 single opcodes) in scriptPubKey / scriptSig / a witness item / the scriptSig of a coinbase that collects fees (one block each), in batches of {} per world bisected on failure, x 8 coins x 5 callbacks; exit 0, no panic text, output equal to the model with the cells derived from an injected scriptPubKey masked; non-trivial = distinct (coin, field, callback, batch)", list.len(), batch);
     rep.bound = json!({"strings": list.len(), "batch": batch, "cases": cases.len()});
     let root = refmodel::world::scratch_root();
     let parts = par_fold(
